@@ -759,6 +759,7 @@ class State:
     self.used_singletons = set()
     self.has_dup = False
     self.outside = True     # bound_template: ranges may leave the field spec
+    self.hot_end = 0        # ... at their lower (+1) / upper (-1) end
 
 
 def unique_const(st, simple=False):
@@ -1355,15 +1356,19 @@ def _end(st, b, inward):
   on it (with either sign of zero), just inside or (st.outside) just outside."""
   rng = st.rng
   r = rng.random()
-  if r < 0.35:
+  if st.outside and st.hot_end == inward and r < 0.85:
+    return _shift(rng, b, -inward)
+  if r < 0.5:
     return rng.choice([0.0, -0.0]) if b == 0 else float(b)
-  return _shift(rng, b, inward if r < 0.65 or not st.outside else -inward)
+  return _shift(rng, b, inward)
 
 
 def float_range(st, s):
   """floatv whose ends sit on / just inside / just outside the bounds of s."""
   rng = st.rng
   lo, hi = s['lo'], s['hi']
+  # in a field that may misfit, one end of the range leaves the spec
+  st.hot_end = rng.choice([d for b, d in ((lo, +1), (hi, -1)) if b is not None] or [0])
   a = _end(st, lo, +1) if lo is not None else None
   b = _end(st, hi, -1) if hi is not None else None
   if a is None and b is None:
@@ -1387,6 +1392,7 @@ def float_value(st, s):
   if not bs:
     return const(rng.choice([-1.5, 0.0, -0.0, 2.5]))
   b, d = rng.choice(bs)
+  st.hot_end = d
   v = _end(st, b, d)
   if not st.outside and _num_breaks(s, v):
     v = float(b)
@@ -1403,9 +1409,21 @@ def float_field(st, s):
     return oneof(vals, tag=_tag(st))
   if r < 0.55:
     return float_range(st, s)
-  vals = [float_value(st, s) for _ in range(rng.randint(1, 2))]
-  if rng.random() < 0.6:
+  n = rng.randint(1, 2)
+  with_range = rng.random() < 0.6
+  # at most one candidate of a field that may misfit leaves the spec
+  hot = st.outside
+  hot_j = rng.randrange(n + with_range) if hot else -1
+  if hot and with_range and rng.random() < 0.5:
+    hot_j = n
+  vals = []
+  for j in range(n):
+    st.outside = j == hot_j
+    vals.append(float_value(st, s))
+  if with_range:
+    st.outside = hot_j == n
     vals.append(float_range(st, s))
+  st.outside = hot
   if len(vals) >= 3 and rng.random() < 0.4:
     vals = [vals[0], oneof(vals[1:], tag=_tag(st))]
   rng.shuffle(vals)
@@ -1449,19 +1467,24 @@ def list_field(st, s=None):
   es = s['elem'] if s else float_spec(rng)
   n = rng.randint(2, 4)
   cands = []
-  for _ in range(n):
-    cands.append(float_range(st, es) if rng.random() < 0.5 else float_value(st, es))
+  hot = st.outside
+  hot_j = rng.randrange(n) if hot else -1
+  for j in range(n):
+    st.outside = j == hot_j
+    cands.append(float_range(st, es) if rng.random() < (0.8 if j == hot_j else 0.4)
+                 else float_value(st, es))
+  st.outside = False
   distinct, srt = rng.choice(S.MODES)
   k = rng.randint(2, 3)
   if distinct and k > n:
     k = n
   if s:
-    if st.outside and rng.random() < 0.15 and s['max'] is not None:
+    if hot and rng.random() < 0.15 and s['max'] is not None:
       k = s['max'] + 1
       cands += [float_value(st, es) for _ in range(k - len(cands))]
     return s, choice(k, cands, distinct, srt, tag=_tag(st))
   s = spec_list(es, rng.choice([0, 1, 2]), rng.choice([None, 3, 4]))
-  if st.outside and rng.random() < 0.15:
+  if hot and rng.random() < 0.15:
     s = spec_list(es, rng.choice([0, k + 1]), k - 1 if s['min'] == 0 else None)
   return s, choice(k, cands, distinct, srt, tag=_tag(st))
 
@@ -1471,7 +1494,7 @@ def bound_template(st):
   bounds are boundary values (0, 0.0, -0.0, equal min/max) and whose
   placeholders reach just inside / outside them."""
   rng = st.rng
-  outside = rng.random() < 0.45
+  outside = rng.random() < 0.5
   st.outside = False
   if rng.random() < 0.15:
     es = float_spec(rng)
